@@ -48,6 +48,14 @@ class Unknown(Exception):
     pass
 
 
+class Multi(Unknown):
+    """a merged value with several feasible definitions: the values it may have (a comparison that comes out the same for
+    all of them is still decided)"""
+    def __init__(self, values):
+        Unknown.__init__(self, 'phi with %d feasible values' % len(values))
+        self.values = values
+
+
 def ev(body, e, leaf, depth=0):
     """value of expression e; `leaf(body, e)` may return a value for any node (checked first), or None"""
     if depth > 200:
@@ -114,7 +122,29 @@ def ev(body, e, leaf, depth=0):
         raise Unknown('aggr %s' % e[1])
     if k == 'binop':
         op = e[1].replace('Unchecked', '')
-        a, b = rec(e[2]), rec(e[3])
+        try:
+            a = rec(e[2])
+            As = None
+        except Multi as m:
+            As = m.values
+        try:
+            b = rec(e[3])
+            Bs = None
+        except Multi as m:
+            Bs = m.values
+        if As is not None or Bs is not None:
+            res = []
+            for x in (As if As is not None else [a]):
+                for y in (Bs if Bs is not None else [b]):
+                    lf = lambda bb, ee, x=x, y=y: x if ee is e[2] else (y if ee is e[3] else leaf(bb, ee))
+                    v = ev(body, ('binop', e[1], e[2], e[3]), lf, depth + 1) if False else None
+                    # evaluate the operator on the two concrete operands
+                    v = ev(body, ('binop', e[1], ('const', '', x, ''), ('const', '', y, '')), leaf, depth + 1)
+                    if v not in res:
+                        res.append(v)
+            if len(res) == 1:
+                return res[0]
+            raise Multi(res)
         if not isinstance(a, (int, float)) or not isinstance(b, (int, float)):
             raise Unknown('binop operands')
         if op == 'Add':
@@ -194,7 +224,7 @@ def ev(body, e, leaf, depth=0):
                 uniq.append(v)
         if len(uniq) == 1:
             return uniq[0]
-        raise Unknown('phi with %d feasible values' % len(uniq))
+        raise Multi(uniq)
     if k == 'discr':
         x = e[1]
         while x[0] in ('ref', 'deref'):
